@@ -114,7 +114,10 @@ def gen_source(rng):
         exprs = ["t000 1;", "dt 2;"] + [f't{i:03d} "$t{i - 1:03d} + $dt";' for i in range(1, n)]
     elif r < 0.5:
         exprs = rng.sample(["va 3;", "vb $va;", "vc \"$va + 4\";", "vd $missing;", "ve \"$vb * 2 + $va\";", "vf ( 1 2 3 );", "vg $vf[1];",
-                            "vs 'text';", "vt $vs;", "vu \"$nope + 1\";", "vz \"2 * $va\";"], rng.randint(1, 6))
+                            "vs 'text';", "vt $vs;", "vu \"$nope + 1\";", "vz \"2 * $va\";",
+                            # results of the functions the reader makes available in expressions (numpy scalars, arrays, floats)
+                            "vm \"mean($vf)\";", "vsd \"std($vf)\";", "vq \"sqrt($va)\";", "vp \"$va * pi\";", "vo \"ones(2) * $va\";",
+                            "vw \"sum($vf) + len($vf)\";", "vr \"round($va / 7, 3)\";", "vh \"$va / 2\";", "vmx \"max($vf) - min($vf)\";"], rng.randint(1, 8))
     text = c12.render(rng, items)
     if exprs:
         text += ("\n" if not text.endswith("\n") else "") + "\n".join(exprs) + "\n"
